@@ -114,7 +114,7 @@ func combineSigns(expr []token) []token {
 					break
 				}
 				if expr[i].val == "-" {
-					negativeFound = true
+					negativeFound = !negativeFound
 				}
 			}
 			if negativeFound {
